@@ -125,6 +125,14 @@ Theorem C10_flag_sites : flag_sites = expected_flag_sites /\ jit_functions = exp
 Proof. exact sites_ok. Qed.
 Print Assumptions C10_flag_sites.
 
+(* every buffer handed to a backend-dispatching solve() with overwrite_b / overwrite_ab = True is a fresh local
+   (or, for the matrix, the penalty of a system not used again): no returned value or params entry can be
+   overwritten by SciPy but left intact by pentapy.  Sites enumerated and classified from the source on every run. *)
+Theorem C10_overwrite_buffers_fresh :
+  (forall s, In s overwrite_sites -> site_ok s = true) /\ overwrite_sites <> [].
+Proof. exact overwrite_ok. Qed.
+Print Assumptions C10_overwrite_buffers_fresh.
+
 (* imported here, after the theorems above, because C07.Model re-uses names of C10.Model (call, den, ...) *)
 From PB Require Import C07.Model C07.Proofs C10.Btb C10.BeadsModel C10.BeadsProofs.
 Module M7 := PB.C07.Model.
